@@ -1,8 +1,10 @@
 """C10 - after a connection drop, unanswered requests are re-sent once, in order (engine BC)."""
 from vlib.engines import bc
+from vlib import tracefuzz
 from vlib.engines.base import drive, run_trace
 
 PROP = "C10"
+FUZZ_ENGINE = bc.BCEngine  # fuzz/traces.py (coverage-guided trace search, thorough tier)
 TECHNIQUE = "model-based stateful property testing: a reference model predicts, step by step, the exact frames written per connection and the time and address of every connection attempt; drops injected at every event boundary; ddmin-shrunk traces"
 RULE = (
     "same trace space as C06 (engine BC) with drops before/between/inside frames, while connecting and during backoff, 0..n "
@@ -26,6 +28,8 @@ class Eng(bc.BCEngine):
 
 def shard(ctx):
     drive(ctx, Eng, ctx.n(16 * 500, 16 * 10000), min_steps=6, max_steps=60, props={"C10"})
+    # coverage-guided trace search (atheris driving the same Hypothesis driver): 2 campaigns in the quick tier, 4 in the thorough one
+    tracefuzz.run(ctx, "c10", 400 if ctx.tier == "quick" else 40000, nshards=2 if ctx.tier == "quick" else 4)
 
 
 def replay(case, ctx):
